@@ -201,10 +201,10 @@ theorem thinB_sound (shape : List Nat) (a : Nat) (h : thinB shape a = true) : Th
 capitalisation of each, three foreign strings): documented methods reach distinct back-ends, the foreign strings are rejected
 with `NotImplementedError`.  (A finite sample of the string argument, not a statement about all strings.) -/
 theorem dispatch_total :
-    Gen.dispatch .newton = .ok .newton ∧ Gen.dispatch .bregman = .ok .bregman ∧ Gen.dispatch .cv2emd = .ok .emd ∧
-    Gen.dispatch .newtonCap = .ok .newton ∧ Gen.dispatch .bregmanUpper = .ok .bregman ∧
-    Gen.dispatch .cv2emdUpper = .ok .emd ∧
-    (∀ m ∈ [Gen.Method.sinkhorn, .emd, .empty], Gen.dispatch m = .error .notImpl) := by decide
+    Gen.Transport.dispatch .newton = .ok .newton ∧ Gen.Transport.dispatch .bregman = .ok .bregman ∧ Gen.Transport.dispatch .cv2emd = .ok .emd ∧
+    Gen.Transport.dispatch .newtonCap = .ok .newton ∧ Gen.Transport.dispatch .bregmanUpper = .ok .bregman ∧
+    Gen.Transport.dispatch .cv2emdUpper = .ok .emd ∧
+    (∀ m ∈ [Gen.Transport.Method.sinkhorn, .emd, .empty], Gen.Transport.dispatch m = .error .notImpl) := by decide
 
 /-- OpenCV back-end, single-cell move, rescaling formula only (`cv2.EMD`, the normalisation and the float32 signature are not
 modelled): conjunct 1 unfolds the definition (result² = mass² · distance², mass = value · cell volume); conjuncts 2–3: symmetric
@@ -229,7 +229,9 @@ theorem emd_call_single_move {n : Nat} {pos : Nat → Rat × Rat} {E} (hE : IsW1
     unfold emdIntegral; exact sumTo_ite_eq n i (fun _ => v) hi
   rw [this]
 
-/-- symmetry for images of equal total sum (what `_compatibility_check` asserts) -/
+/-- symmetry for images of EXACTLY equal total sum. (The code's `_compatibility_check` only asserts `allclose(sum_1, sum_2, atol=1e-6)`
+and rescales by the first image's sum: for sums that differ within that tolerance the two call orders differ by the same relative
+amount — outside this theorem.) -/
 theorem emd_call_symm {n : Nat} {pos : Nat → Rat × Rat} {E} (hE : IsW1 n pos E) (vol : Rat) (a b : Nat → Rat)
     (hab : emdIntegral n a = emdIntegral n b) : emdCall E n vol a b = emdCall E n vol b a := by
   unfold emdCall; rw [hE.symm, hab]
@@ -270,6 +272,25 @@ theorem sig_construction (R C : Nat) (dy dx : Rat) (a : Nat → Rat) (hI : emdIn
       Option.getD_some, emdWeight, emdPos, h1, h2]
   · show sumTo (R * C) (fun k => a k / emdIntegral (R * C) a) = 1
     rw [sumTo_div]; exact div_self hI
+
+/-- the contract `IsW1` is satisfiable (non-vacuity): the displacement of the first moment itself meets all three clauses -/
+theorem isW1_satisfiable (n : Nat) (pos : Nat → Rat × Rat) :
+    IsW1 n pos (fun s t => Real.sqrt (((momX n pos s - momX n pos t : Rat) : ℝ) ^ 2 +
+      ((momY n pos s - momY n pos t : Rat) : ℝ) ^ 2)) := by
+  have hx : ∀ i, i < n → momX n pos (fun k => if k = i then 1 else 0) = (pos i).1 := by
+    intro i hi
+    unfold momX
+    rw [sumTo_congr (g := fun k => if k = i then (pos k).1 else 0) (fun k _ => by by_cases h : k = i <;> simp [h])]
+    exact sumTo_ite_eq n i (fun k => (pos k).1) hi
+  have hy : ∀ i, i < n → momY n pos (fun k => if k = i then 1 else 0) = (pos i).2 := by
+    intro i hi
+    unfold momY
+    rw [sumTo_congr (g := fun k => if k = i then (pos k).2 else 0) (fun k _ => by by_cases h : k = i <;> simp [h])]
+    exact sumTo_ite_eq n i (fun k => (pos k).2) hi
+  refine ⟨fun s t => ?_, fun i j hi hj => ?_, fun s t _ _ _ _ => le_refl _⟩
+  · congr 1
+    push_cast; ring
+  · simp only [hx i hi, hx j hj, hy i hi, hy j hj, dist2]
 
 /-! ### first-moment bound (real quadrature nodes, Euclidean norm) -/
 
